@@ -77,8 +77,15 @@ def translate(src_text):
     idx = body.index(t)
     if t.finalbody or t.orelse:
         raise TranslateError("solve_low_level: try statement has else/finally")
-    if len(t.body) != 1 or ast.unparse(t.body[0]) != "stdout, stderr, returncode = future.result()":
+    # try body: `<a>, <b>, <c> = <F>.result()` (names are free)
+    tb = t.body[0] if len(t.body) == 1 else None
+    if not (isinstance(tb, ast.Assign) and len(tb.targets) == 1 and isinstance(tb.targets[0], ast.Tuple)
+            and len(tb.targets[0].elts) == 3 and all(isinstance(e, ast.Name) for e in tb.targets[0].elts)
+            and isinstance(tb.value, ast.Call) and isinstance(tb.value.func, ast.Attribute) and tb.value.func.attr == "result"
+            and isinstance(tb.value.func.value, ast.Name) and not tb.value.args and not tb.value.keywords):
         raise TranslateError(f"solve_low_level: unexpected try body {ast.unparse(t.body[0])!r}")
+    outs = [e.id for e in tb.targets[0].elts]
+    fut = tb.value.func.value.id
     if len(t.handlers) != 1:
         raise TranslateError(f"solve_low_level: expected one except clause, found {len(t.handlers)}")
     h = t.handlers[0]
@@ -87,39 +94,51 @@ def translate(src_text):
     if len(h.body) != 1 or not isinstance(h.body[0], ast.Return):
         raise TranslateError("solve_low_level: the TimeoutExpired handler is not a single return")
     info["timeout"] = _result_of_solver_output_call(h.body[0].value, "TimeoutExpired handler")
-    # before the try: the future is created with the timeout and submitted
-    pre = [ast.unparse(s) for s in body[:idx]]
-    need = ["future = PopenFuture(solver_command, timeout=timeout_seconds)", "path_ctx.solving_ctx.executor.submit(future)"]
-    pos = []
-    for n in need:
-        if n not in pre:
-            raise TranslateError(f"solve_low_level: statement {n!r} not found before the try")
-        pos.append(pre.index(n))
-    if pos != sorted(pos):
-        raise TranslateError("solve_low_level: submit precedes the construction of the future")
-    if "timeout_seconds = t if (t := args.solver_timeout_assertion) else None" not in pre:
-        raise TranslateError("solve_low_level: timeout_seconds is not `t if (t := args.solver_timeout_assertion) else None`")
+    # before the try: `<F> = PopenFuture(<cmd>, timeout=<expr>)`, then `<...>.submit(<F>)`
+    made = submitted = None
+    for i, st in enumerate(body[:idx]):
+        if (isinstance(st, ast.Assign) and len(st.targets) == 1 and isinstance(st.targets[0], ast.Name) and st.targets[0].id == fut
+                and isinstance(st.value, ast.Call) and isinstance(st.value.func, ast.Name) and st.value.func.id == "PopenFuture"):
+            if not any(kw.arg == "timeout" for kw in st.value.keywords) and len(st.value.args) < 2:
+                raise TranslateError("solve_low_level: PopenFuture is created without a timeout argument")
+            made = i
+        if (isinstance(st, ast.Expr) and isinstance(st.value, ast.Call) and isinstance(st.value.func, ast.Attribute)
+                and st.value.func.attr == "submit" and len(st.value.args) == 1 and isinstance(st.value.args[0], ast.Name)
+                and st.value.args[0].id == fut):
+            submitted = i
+    if made is None or submitted is None or submitted < made:
+        raise TranslateError("solve_low_level: `F = PopenFuture(...)` followed by `executor.submit(F)` not found before the try")
     last = body[-1]
-    if not (isinstance(last, ast.Return) and ast.unparse(last.value) == "SolverOutput.from_result(stdout, stderr, returncode, path_ctx)"):
+    if not (isinstance(last, ast.Return) and isinstance(last.value, ast.Call)
+            and ast.unparse(last.value.func) == "SolverOutput.from_result"
+            and [ast.unparse(x) for x in last.value.args[:3]] == outs):
         raise TranslateError(f"solve_low_level: unexpected final statement {ast.unparse(last)!r}")
-    for s in body[idx + 1:-1]:
-        for n in ast.walk(s):
-            if isinstance(n, (ast.Return, ast.Assign)) and isinstance(n, ast.Return):
+    for st in body[idx + 1:-1]:
+        for n in ast.walk(st):
+            if isinstance(n, ast.Return):
                 raise TranslateError("solve_low_level: extra return between result() and from_result")
-            if isinstance(n, ast.Name) and isinstance(n.ctx, ast.Store) and n.id in ("stdout", "stderr", "returncode"):
+            if isinstance(n, ast.Name) and isinstance(n.ctx, ast.Store) and n.id in outs:
                 raise TranslateError(f"solve_low_level: `{n.id}` is re-assigned before from_result")
 
     # ---- SolverOutput.from_result
     fr = _find_class_function(tree, "SolverOutput", "from_result")
+    import re as _re
+
     stmts = [ast.unparse(s) for s in fr.body]
-    for n in ("newline_idx = stdout.find('\\n')", "first_line = stdout[:newline_idx] if newline_idx != -1 else stdout"):
-        if n not in stmts:
-            raise TranslateError(f"from_result: statement {n!r} not found")
+    arg0 = fr.args.args[0].arg
+    m1 = [m for m in (_re.fullmatch(r"(\w+) = (\w+)\.find\('\\n'\)", x) for x in stmts) if m]
+    if len(m1) != 1 or m1[0].group(2) != arg0:
+        raise TranslateError("from_result: `<i> = <stdout>.find('\\n')` not found")
+    iv = m1[0].group(1)
+    m2 = [m for m in (_re.fullmatch(r"(\w+) = (\w+)\[:(\w+)\] if (\w+) != -1 else (\w+)", x) for x in stmts) if m]
+    if len(m2) != 1 or m2[0].groups()[1:] != (arg0, iv, iv, arg0):
+        raise TranslateError("from_result: `<line> = <stdout>[:<i>] if <i> != -1 else <stdout>` not found")
+    first_line_var = m2[0].group(1)
     matches = [s for s in fr.body if isinstance(s, ast.Match)]
     if len(matches) != 1 or fr.body[-1] is not matches[0]:
         raise TranslateError("from_result: expected a single, final match statement")
     m = matches[0]
-    if ast.unparse(m.subject) != "first_line":
+    if ast.unparse(m.subject) != first_line_var:
         raise TranslateError(f"from_result: match subject is {ast.unparse(m.subject)!r}")
     arms = []      # (string or None for wildcard, verdict)
     for case in m.cases:
